@@ -206,10 +206,18 @@ def is_membership(e: ast.expr):
     return None
 
 
-def compare_parts(e: ast.expr):
-    """Single comparison -> (left, opname, right) else None."""
+_MIRROR = {"Eq": "Eq", "NotEq": "NotEq", "Lt": "Gt", "Gt": "Lt", "LtE": "GtE", "GtE": "LtE", "Is": "Is", "IsNot": "IsNot"}
+
+
+def compare_parts(e: ast.expr, left=None):
+    """Single comparison -> (left, opname, right) else None.  With ``left`` (a predicate on an operand) the comparison is
+    returned oriented so that the operand satisfying it stands on the left (`a < b` read as `b > a` when needed): rules
+    say WHICH operand they mean instead of relying on the side it was written on."""
     if isinstance(e, ast.Compare) and len(e.ops) == 1:
-        return e.left, type(e.ops[0]).__name__, e.comparators[0]
+        l, op, r = e.left, type(e.ops[0]).__name__, e.comparators[0]
+        if left is not None and not left(l) and left(r) and op in _MIRROR:
+            return r, _MIRROR[op], l
+        return l, op, r
     return None
 
 
